@@ -545,8 +545,121 @@ def siblings_and_reappearing_files_stream(ctx, res):
                     res.violate("C18:missing-include-accepted", "a load succeeded although the include file does not exist at the time of the load", dict(case, got=got))
 
 
+def working_directory_backslashes_and_own_formats_stream(ctx, res):
+    """(a) an include field given NO start directory (the documented default use) resolves a relative include path against the
+    working directory AT THE LOAD, also when the process changed directory after the schema was defined — two directories hold a
+    file of the same name with different content, and a name that exists in only one of them; (b) on POSIX a backslash is an
+    ordinary character of a file name: an include path names the file it spells (`sub\\db.json` is a file of that name, not
+    `sub/db.json`), the load fails if exactly that file does not exist; (c) a user-defined format whose instances keep parser state
+    (one instance must not parse two documents): documents with includes at the root, in nested scopes and chains still load like
+    the merged tree, because every document gets a formatter of its own"""
+    import cincoconfig as cc
+    import ext
+    tmp = os.path.realpath(ctx.tmpdir())
+    cwd0 = os.getcwd()
+    # (a)
+    d1, d2 = os.path.join(tmp, "wd-defined"), os.path.join(tmp, "wd-loaded")
+    for d, tag in ((d1, "defined"), (d2, "loaded")):
+        os.makedirs(os.path.join(d, "sub"), exist_ok=True)
+        for rel in ("inc.json", os.path.join("sub", "inc.json")):
+            with open(os.path.join(d, rel), "w") as fp:
+                json.dump({"host": "%s-%s" % (tag, rel.replace(os.sep, "-"))}, fp)
+    with open(os.path.join(d2, "only-loaded.json"), "w") as fp:
+        json.dump({"host": "only-loaded"}, fp)
+    with open(os.path.join(d1, "only-defined.json"), "w") as fp:
+        json.dump({"host": "only-defined"}, fp)
+    try:
+        os.chdir(d1)
+        s = cc.Schema()
+        s.include = cc.IncludeField()
+        s.host = cc.StringField(default="h")
+        s.db.include = cc.IncludeField()
+        s.db.host = cc.StringField(default="h")
+        os.chdir(d2)
+        for rel, want in (("inc.json", "loaded-inc.json"), (os.path.join("sub", "inc.json"), "loaded-sub-inc.json"), ("only-loaded.json", "only-loaded"), ("only-defined.json", None),
+                          (os.path.join(d1, "only-defined.json"), "only-defined")):
+            for scope in ("root", "nested"):
+                doc = {"include": rel} if scope == "root" else {"db": {"include": rel}}
+                case = {"stream": "no-startdir-chdir", "include": rel if not os.path.isabs(rel) else "<absolute>", "scope": scope}
+                res.case(stable(case), kind="no-startdir-chdir")
+                cfg = s()
+                try:
+                    cfg.loads(json.dumps(doc).encode(), format="json")
+                    got = cfg.host if scope == "root" else cfg.db.host
+                except cc.ValidationError:
+                    got = None
+                except Exception as e:  # noqa
+                    got = "raised %s" % type(e).__name__
+                if got != want:
+                    res.violate("C18:startdir", "an include field without a start directory did not resolve a relative path against the working directory at the load",
+                                dict(case, got=got, want=want))
+    finally:
+        os.chdir(cwd0)
+    # (b)
+    if os.path.sep == "/":
+        bs = os.path.join(tmp, "bs")
+        os.makedirs(os.path.join(bs, "sub"), exist_ok=True)
+        with open(os.path.join(bs, "sub", "db.json"), "w") as fp:
+            json.dump({"host": "slash-spelled"}, fp)
+        with open(os.path.join(bs, "win\\style.json"), "w") as fp:
+            json.dump({"host": "backslash-in-name"}, fp)
+        t = cc.Schema()
+        t.include = cc.IncludeField(startdir=bs)
+        t.host = cc.StringField(default="h")
+        t.db.include = cc.IncludeField(startdir=bs)
+        t.db.host = cc.StringField(default="h")
+        for rel, want in (("sub/db.json", "slash-spelled"), ("sub\\db.json", None), ("win\\style.json", "backslash-in-name"), ("win/style.json", None),
+                          (os.path.join(bs, "win\\style.json"), "backslash-in-name")):
+            for scope in ("root", "nested"):
+                doc = {"include": rel} if scope == "root" else {"db": {"include": rel}}
+                case = {"stream": "backslash-names", "include": rel if not os.path.isabs(rel) else "<absolute>/win\\style.json", "scope": scope}
+                res.case(stable(case), kind="backslash-names")
+                cfg = t()
+                try:
+                    cfg.loads(json.dumps(doc).encode(), format="json")
+                    got = cfg.host if scope == "root" else cfg.db.host
+                except cc.ValidationError:
+                    got = None
+                except Exception as e:  # noqa
+                    got = "raised %s" % type(e).__name__
+                if got != want:
+                    res.violate("C18:missing-file" if want is None else "C18:wrong-file", "an include path with a backslash did not name the file it spells", dict(case, got=got, want=want))
+    # (c)
+    ext.ns()
+    fdir = os.path.join(tmp, "own-format")
+    os.makedirs(fdir, exist_ok=True)
+    enc = lambda tree: json.dumps(tree, sort_keys=True)[::-1].encode("utf-8")      # noqa: E731
+    u = cc.Schema()
+    u.include = cc.IncludeField(startdir=fdir)
+    u.name = cc.StringField(default="n")
+    u.db.include = cc.IncludeField(startdir=fdir)
+    u.db.host = cc.StringField(default="h")
+    u.db.pool.include = cc.IncludeField(startdir=fdir)
+    u.db.pool.size = cc.IntField(default=1)
+    files = {"root.rjson": {"name": "from-root-include", "db": {"host": "root-inc-host"}}, "db.rjson": {"host": "db-inc-host", "pool": {"size": 7}}, "pool.rjson": {"size": 42}}
+    for name, tree in files.items():
+        with open(os.path.join(fdir, name), "wb") as fp:
+            fp.write(enc(tree))
+    for label, doc, want in (("root include", {"include": "root.rjson", "name": "doc"}, {"name": "from-root-include", "db.host": "root-inc-host", "db.pool.size": 1}),
+                             ("nested include", {"name": "doc", "db": {"include": "db.rjson", "host": "doc-host"}}, {"name": "doc", "db.host": "db-inc-host", "db.pool.size": 7}),
+                             ("two scopes", {"include": "root.rjson", "db": {"pool": {"include": "pool.rjson"}}}, {"name": "from-root-include", "db.host": "root-inc-host", "db.pool.size": 42}),
+                             ("three scopes", {"include": "root.rjson", "db": {"include": "db.rjson", "pool": {"include": "pool.rjson", "size": 3}}},
+                              {"name": "from-root-include", "db.host": "db-inc-host", "db.pool.size": 42})):
+        case = {"stream": "stateful-own-format", "document": label}
+        res.case(stable(case), kind="stateful-own-format")
+        cfg = u()
+        try:
+            cfg.loads(enc(doc), format="rjson")
+            got = {k: cfg[k] for k in want}
+        except Exception as e:  # noqa
+            got = "raised %s: %s" % (type(e).__name__, str(e)[:80])
+        if got != want:
+            res.violate("C18:own-format", "a document in a user-defined format whose instances keep parser state did not load like the merged tree (one formatter instance parsed "
+                        "more than one document?)", dict(case, got=got, want=want))
+
 def run(ctx):
     res = Result()
+    guard(res, "C18", working_directory_backslashes_and_own_formats_stream, ctx, res)
     guard(res, "C18", stream_a, ctx, res, ctx.n(2000, 60000))
     guard(res, "C18", stream_b, ctx, res, ctx.n(150, 3000))
     guard(res, "C18", file_bytes_stream, ctx, res)
